@@ -122,7 +122,8 @@ def extOfJson (j : J) : Ext :=
     inputFields := (objEntries j "input_fields").map fun e => (e.1, (e.2.asArr?.getD []).map extArgOfJson),
     members := (objEntries j "members").map fun e => (e.1, (e.2.asArr?.getD []).filterMap J.asStr?),
     values := (objEntries j "values").map fun e => (e.1, (e.2.asArr?.getD []).filterMap J.asStr?),
-    newDirs := (j.arrD "new_dirs").map fun d => (d.strD "name", (d.arrD "args").map extArgOfJson, strList d "locs") }
+    newDirs := (j.arrD "new_dirs").map fun d => (d.strD "name", (d.arrD "args").map extArgOfJson, strList d "locs"),
+    newIfaces := (j.arrD "new_types").filterMap fun t => if (strList t "implements").isEmpty then none else some (t.strD "name", strList t "implements") }
 
 def FUEL : Nat := 12
 
